@@ -150,6 +150,7 @@ def crashed_writer_case(ctx, src):
 def run_case(ctx):
     src = ctx.src
     common.draw_env(ctx)
+    common.prelude(ctx)
     if src.flag("crashed_writer", 6):
         return crashed_writer_case(ctx, src)
     m = world.gen_world(src, max_boxes=12, scale=("manyboxes", "farcorner", "manyfields"), scale_rate=80)
